@@ -900,6 +900,12 @@ func (vc *VC) execRange(st *State, s *ast.RangeStmt, label string) *State {
 	lf := &loopFrame{label: label, isLoop: true, stmt: s}
 	fr := vc.cur()
 	fr.loops = append(fr.loops, lf)
+	// "iter:<range variable>" anchors: at the start of every iteration, range variables bound
+	if len(vc.anchoredNodes[s]) > 0 {
+		preIter := body.clone()
+		vc.nodeAnchors(body, s, "before", nil, preIter)
+		vc.nodeAnchors(body, s, "after", nil, preIter)
+	}
 	end := vc.execBlock(body, s.Body.List)
 	fr.loops = fr.loops[:len(fr.loops)-1]
 	back := vc.merge(append(lf.conts, end))
